@@ -193,6 +193,14 @@ func checkSingleSection(p *Prog, r *Report, rule, l string, scope string) {
 
 // checkNoEscape: no function in scope returns the address or the (uncopied) contents of a guarded field.
 func checkNoEscape(p *Prog, r *Report, gs *guardSpec, rule, scope string, allowed map[string]string) {
+	nRet, nBad := 0, 0
+	defer func() {
+		if nRet == 0 {
+			r.Undecided(rule, "anchor: return statements in "+scope, scope, "no function of the package was examined (scope mismatch)")
+		} else if nBad == 0 {
+			r.OK(rule, scope+": no function returns a reference to guarded state", scope, fmt.Sprintf("%d return statements examined", nRet), true)
+		}
+	}()
 	for _, f := range p.RepoFns {
 		k := fnKey(f)
 		if !keyInPkg(k, scope) {
@@ -203,8 +211,9 @@ func checkNoEscape(p *Prog, r *Report, gs *guardSpec, rule, scope string, allowe
 			if !ok {
 				return
 			}
+			nRet++
 			for _, v := range ret.Results {
-				v = stripChange(v)
+				v = stripChange(retResult(ret, indexOfResult(ret, v)))
 				fld, hit := gs.guardedAddr(v)
 				if !hit {
 					fld, hit = gs.derives(v, 0)
@@ -213,7 +222,9 @@ func checkNoEscape(p *Prog, r *Report, gs *guardSpec, rule, scope string, allowe
 					continue
 				}
 				c := k + ": returns guarded " + fld
+				nBad++
 				if why, ok := allowed[k]; ok {
+					nBad--
 					r.OK(rule, c, p.instrPos(in), "allowed: "+why, false)
 				} else {
 					r.Violation(rule, c, p.instrPos(in), "a reference to lock-protected state leaves the critical section")
@@ -237,4 +248,13 @@ func keyInPkg(k, pkgRel string) bool {
 	k = strings.TrimPrefix(k, "(")
 	k = strings.TrimPrefix(k, "*")
 	return strings.HasPrefix(k, pkgRel+".")
+}
+
+func indexOfResult(r *ssa.Return, v ssa.Value) int {
+	for i, x := range r.Results {
+		if x == v {
+			return i
+		}
+	}
+	return 0
 }
